@@ -16,11 +16,11 @@ func init() {
 		explanation: "Decided (structural, for every batch and index): " +
 			"C13.convmap — in the conversion package every field of a freshly built library/protobuf struct that is initialised from a field of a source struct takes it from the field of the same name (reviewed exceptions: Result.Count <-> Result.TotalCount), and every exported field of each destination type built in a function is initialised there; " +
 			"C13.kindmap — the oneof switch of the expression conversion has a case for every oneof wrapper, each case returns the library node of the matching kind, operands are converted from the wrapper's own operand list and appended in order (a case that returns what a helper given the wrapper returns is judged on the helper's body); " +
-			"C13.loop — in the gRPC handler each iteration over the request's queries appends exactly one element at the end of the response, that element is ToProtobufResult(Execute(ToQuery(current query)), id) — built in the loop or by a helper whose parameters are bound to the current query / range index / id at the call —, no path finishes an iteration without appending, and the response is returned only after the loop; " +
-			"C13.id — the id is the query's Id, replaced by int32(range index + 1) exactly on the branch where Id == 0; " +
+			"C13.loop — in the gRPC handler each iteration over the request's queries appends exactly one element at the end of the response, that element is ToProtobufResult(Execute(ToQuery(current query)), id) — built in the loop or by a helper whose parameters are bound to the current query / range index / id at the call —, no path finishes an iteration without appending, and the response is returned only after the loop; the result converted may also come out of a helper that hands Execute's result on, or be the result remembered for an identical query of the same batch (a map that is filled only with Execute(ToQuery(current query)) under the key it is looked up with, the key being computed from the current query alone by a function that reads both its expression and its group-by list, its error not ignored on both sides, the value used only where the lookup found one); the queries may be converted ahead of the loop by a function of the handler's package (it must append exactly one entry per query, in order, to a list that starts empty, and return it without error only after its loop; the handler then loops over the entries, every field of the current entry stands for what that function stored in it for the current query, a result list by position is filled in every iteration at the current position with Execute(entry's query) or with the result at a position that is tested to lie before the current one and was remembered under the query's key, and a response is returned only where that function is known to have succeeded); a response message copied from one position of the answered list to another is reported (refutation: a repeated query would carry the earlier one's id); " +
+			"C13.id — the id is the query's Id (the field or its generated getter), replaced by int32(range index + 1) exactly on the branch where Id == 0; " +
 			"C13.nopartial — every error return of the handler carries a nil response, and conversion/execution errors (also of nested operands, also when they arise in a per-query helper of the handler, whose error must then end the handler the same way) are propagated; " +
 			"C13.grpcpath — both statement types hand newRows the (converted) result and the bound query's group-by list. " +
-			"NOT decided: equality of counts/groups with the library's answer (values; follows from the field mapping being a bijection, not checked further); losslessness of the protobuf wire encoding (trusted).",
+			"NOT decided: equality of counts/groups with the library's answer (values; follows from the field mapping being a bijection, not checked further); losslessness of the protobuf wire encoding (trusted); that two queries with the same batch key (deterministic wire encoding of expression and group-by list) are the same query, and that executing the same query twice on the open index gives the same result (C03/C04).",
 		assumptions: []string{"protobuf-go encodes/decodes messages losslessly", "grpc-go delivers the handler's response/error", "go/ssa, dominance"},
 	})
 }
@@ -533,11 +533,25 @@ func c13Loop(c *Ctx) {
 			elems = atCounter
 		}
 	}
+	c13SharedMessage(c, fn, name)
+	if len(elems) == 0 && c13TwoPhase(c, fn, req, name, site) {
+		// the queries are converted by a function of the handler's package before the loop; the loop runs over what it
+		// returns (rules_ag31.go)
+		return
+	}
 	if len(elems) != 1 {
 		c.r.undecided("C13.loop", name, fmt.Sprintf("expected one load of the current query from req.Queries, found %d", len(elems)), site)
 		return
 	}
-	pbq := elems[0]
+	c13LoopBody(c, fn, name, site, elems[0], func(idx, elem ssa.Value) queryElem {
+		// provenance chain and id, followed into a per-query helper of the handler's package if there is one
+		return c13Element(c, &qctx{f: fn, cur: elems[0], idx: idx}, elem)
+	})
+}
+
+// c13LoopBody: the obligations about the handler's loop, given the load of the loop's current element (pbq: the current
+// query of the request, or the current entry of the prepared batch) and a judge of the element that is appended.
+func c13LoopBody(c *Ctx, fn *ssa.Function, name, site string, pbq *ssa.UnOp, judge func(idx, elem ssa.Value) queryElem) {
 	idx := pbq.X.(*ssa.IndexAddr).Index
 	idxIns, isIns := idx.(ssa.Instruction)
 	if !isIns {
@@ -550,56 +564,11 @@ func c13Loop(c *Ctx) {
 			header = phi.Block()
 		}
 	}
-	// stores appending to the response's result list
-	var appends []*ssa.Store
-	allInstrs(fn, func(i ssa.Instruction) {
-		st, ok := i.(*ssa.Store)
-		if !ok {
-			return
-		}
-		dp := path(st.Addr)
-		if f := dp.lastField(); f == nil || f.Name() != "Results" || !typeIs(dp.Root.Type(), pkgProto, "QueryResponse") {
-			return
-		}
-		appends = append(appends, st)
-	})
-	if len(appends) != 1 {
-		c.r.check(false, "C13.loop", name+": append", "", fmt.Sprintf("the handler stores into the response's result list at %d sites; exactly one append per query is expected", len(appends)), site)
+	ap, elem, ok := c13AppendSite(c, fn, name, site, pbq)
+	if !ok {
 		return
 	}
-	ap := appends[0]
-	ac, _ := ap.Val.(*ssa.Call)
-	okShape := false
-	var elem ssa.Value
-	if ac != nil {
-		if b, ok := ac.Call.Value.(*ssa.Builtin); ok && b.Name() == "append" && len(ac.Call.Args) == 2 {
-			base := path(ac.Call.Args[0])
-			if base.lastField() != nil && base.lastField().Name() == "Results" {
-				if sl, ok := ac.Call.Args[1].(*ssa.Slice); ok {
-					if al, ok := sl.X.(*ssa.Alloc); ok {
-						if arr, ok := al.Type().Underlying().(*types.Pointer).Elem().Underlying().(*types.Array); ok && arr.Len() == 1 {
-							for _, r := range referrers(al) {
-								if ia, ok := r.(*ssa.IndexAddr); ok {
-									for _, rr := range referrers(ia) {
-										if s2, ok := rr.(*ssa.Store); ok {
-											elem = s2.Val
-											okShape = true
-										}
-									}
-								}
-							}
-						}
-					}
-				}
-			}
-		}
-	}
-	if !okShape {
-		c.r.bad("C13.loop", name+": append", "the response's result list is not extended by appending exactly one element at its end", []string{c.w.ipos(ap)})
-		return
-	}
-	// provenance chain and id, followed into a per-query helper of the handler's package if there is one
-	el := c13Element(c, &qctx{f: fn, cur: pbq, idx: idx}, elem)
+	el := judge(idx, elem)
 	c.r.check(el.chainOK, "C13.loop", name+": element", "appended element = ToProtobufResult(Execute(ToQuery(current query)), id)", "the element appended for a query is not that query's own converted result: "+el.why, c.w.ipos(ap))
 	// every iteration appends: no path from the element load back to the loop header avoiding the append
 	hdrFirst := header.Instrs[0]
@@ -616,7 +585,11 @@ func c13Loop(c *Ctx) {
 	}
 	// ---- id
 	c.r.check(el.idOK, "C13.id", name, "id = query.Id, or int32(range index + 1) on the Id == 0 branch", el.idWhy, c.w.ipos(ap))
-	// ---- nopartial
+	c13Nopartial(c, fn, name)
+}
+
+// c13Nopartial: every error return of the handler carries a nil response, and conversion/execution errors end the request.
+func c13Nopartial(c *Ctx, fn *ssa.Function, name string) {
 	n := 0
 	allInstrs(fn, func(i ssa.Instruction) {
 		if !isErrorReturn(i) {
@@ -669,6 +642,66 @@ func c13Loop(c *Ctx) {
 		})
 	}
 	c.r.expect("C13.nopartial", 6)
+}
+
+// c13AppendSite finds the one place where the handler extends the response's result list and the element appended
+// there (pbq is the load of the current element of the loop). It reports what is wrong if there is no such place.
+func c13AppendSite(c *Ctx, fn *ssa.Function, name, site string, pbq ssa.Instruction) (*ssa.Store, ssa.Value, bool) {
+	// stores appending to the response's result list
+	var appends []*ssa.Store
+	allInstrs(fn, func(i ssa.Instruction) {
+		st, ok := i.(*ssa.Store)
+		if !ok {
+			return
+		}
+		dp := path(st.Addr)
+		if f := dp.lastField(); f == nil || f.Name() != "Results" || !typeIs(dp.Root.Type(), pkgProto, "QueryResponse") {
+			return
+		}
+		// `resp := &QueryResponse{Results: make([]*Result, 0, n)}`: an empty list stored before the first query is looked
+		// at is the list's initial value, not an answer. (Inside the loop, or after it, the same store would drop the
+		// results appended so far; it is then counted as a second site.)
+		if c13EmptyList(st.Val) && !c.fc.reachableFrom(fn, pbq, st) {
+			return
+		}
+		appends = append(appends, st)
+	})
+	if len(appends) != 1 {
+		c.r.check(false, "C13.loop", name+": append", "", fmt.Sprintf("the handler stores into the response's result list at %d sites; exactly one append per query is expected", len(appends)), site)
+		return nil, nil, false
+	}
+	ap := appends[0]
+	ac, _ := ap.Val.(*ssa.Call)
+	okShape := false
+	var elem ssa.Value
+	if ac != nil {
+		if b, ok := ac.Call.Value.(*ssa.Builtin); ok && b.Name() == "append" && len(ac.Call.Args) == 2 {
+			base := path(ac.Call.Args[0])
+			if base.lastField() != nil && base.lastField().Name() == "Results" {
+				if sl, ok := ac.Call.Args[1].(*ssa.Slice); ok {
+					if al, ok := sl.X.(*ssa.Alloc); ok {
+						if arr, ok := al.Type().Underlying().(*types.Pointer).Elem().Underlying().(*types.Array); ok && arr.Len() == 1 {
+							for _, r := range referrers(al) {
+								if ia, ok := r.(*ssa.IndexAddr); ok {
+									for _, rr := range referrers(ia) {
+										if s2, ok := rr.(*ssa.Store); ok {
+											elem = s2.Val
+											okShape = true
+										}
+									}
+								}
+							}
+						}
+					}
+				}
+			}
+		}
+	}
+	if !okShape {
+		c.r.bad("C13.loop", name+": append", "the response's result list is not extended by appending exactly one element at its end", []string{c.w.ipos(ap)})
+		return nil, nil, false
+	}
+	return ap, elem, true
 }
 
 // cmpsAtEnd: comparisons known when control passes from pred to succ.
@@ -872,14 +905,16 @@ func c13IDCand(c *Ctx, v ssa.Value, facts []cmp, isQuery func(ssa.Value) bool, i
 				x, y = y, x
 			}
 			if k, isK := constInt(y); isK && k == 0 {
-				if f := srcField(x); f != nil && f.Name() == "Id" && isQuery(x) {
+				if base, f := fieldRead(c, x); f != nil && f.Name() == "Id" && isQuery(base) {
 					return true
 				}
 			}
 		}
 		return false
 	}
-	if f := srcField(v); f != nil && f.Name() == "Id" && isQuery(v) {
+	// the query's id: the field itself, or the generated getter (which yields 0 for a nil query; the conversion rejects
+	// such a query)
+	if base, f := fieldRead(c, v); f != nil && f.Name() == "Id" && isQuery(base) {
 		if idFact(token.NEQ) {
 			return true, ""
 		}
